@@ -218,6 +218,7 @@ def verify_contract(contract, want_smt_sample=True, log=None, shard=()):
         cname = contract.case_name(case)
         work = [list(shard)]
         npaths = 0
+        nfull = 0
         k_sh = len(shard)
         while work:
             prefix = work.pop()
@@ -231,6 +232,10 @@ def verify_contract(contract, want_smt_sample=True, log=None, shard=()):
             outcome = None
             try:
                 args, kw, pre = contract.setup(interp, case)
+                if npaths == 1 and core.full_pc_unsat(ex.pc, 2000):
+                    # vacuity guard on the FULL precondition (quantified hypotheses included): z3 refutes a contradictory set of
+                    # assumptions quickly, a consistent one gives sat/unknown -- only `unsat` matters
+                    out["errors"].append(f"{contract.target}[{cname}]: the contract's assumptions (requires) are contradictory: every obligation would be vacuous")
                 try:
                     selfobj = args[0] if rf.cls is not None and "staticmethod" not in rf.decorators else None
                     v = interp.run_function(rf.node, rf.qual, rf.module, list(args), dict(kw), None, rf.is_generator, selfobj=selfobj, cls=rf.cls,
